@@ -34,7 +34,6 @@ import (
 	"github.com/google/certificate-transparency-go/internal/verifkit"
 	"github.com/google/certificate-transparency-go/jsonclient"
 	"github.com/google/certificate-transparency-go/loglist3"
-	"github.com/google/certificate-transparency-go/tls"
 	"github.com/google/certificate-transparency-go/trillian/util"
 	"github.com/google/certificate-transparency-go/x509"
 	"github.com/google/certificate-transparency-go/x509util"
@@ -77,6 +76,10 @@ type v6Sub struct {
 	sct       *ct.SignedCertificateTimestamp
 	leafHash  [32]byte // what a client computes from certificate and SCT alone
 	idHash    [32]byte
+	viaInt    bool
+	serial    int64
+	otherPath bool     // resubmitted through the other intermediate certificate
+	twin      bool     // a precertificate with the same TBS as an earlier one, other signature bytes
 	wantExtra []byte   // expected stored extra data (validated path: submitted intermediates + root)
 	stored    [][]byte // expected stored chain after the leaf
 }
@@ -164,30 +167,17 @@ func (e *v6Env) key(what string) string {
 }
 
 // submit sends a chain (fresh or a resubmission of sub `again`) through add-chain / add-pre-chain.
-func (e *v6Env) submit(again *v6Sub) {
-	ctx := context.Background()
-	e.clock.Advance(time.Duration(1+e.r.I64n(5_000_000)) * time.Microsecond) // sub-millisecond parts matter
+// prepare builds a submission: a fresh certificate (again == nil) or a resubmission of `again`.
+func (e *v6Env) prepare(again *v6Sub, forcePrecert bool) *v6Sub {
 	var s *v6Sub
 	if again == nil {
 		e.serial++
-		s = &v6Sub{precert: e.r.Intn(3) == 0}
-		viaInt := e.r.Bool()
-		leaf := e.pki.Issue(e.serial, s.precert, viaInt)
-		s.chainDER = [][]byte{leaf}
-		s.stored = nil
-		if viaInt {
-			s.chainDER = append(s.chainDER, e.pki.IntDER)
-			s.stored = append(s.stored, e.pki.IntDER)
-		}
-		s.stored = append(s.stored, e.pki.RootDER)
-		// the root may be omitted (RFC 6962 s4.1) — except that client.LogClient needs the issuer of a
-		// precertificate in the submitted chain to verify the SCT it gets back
-		if e.r.Bool() || (s.precert && !viaInt) {
-			s.chainDER = append(s.chainDER, e.pki.RootDER)
-		}
-		s.idHash = sha256.Sum256(leaf)
+		s = &v6Sub{precert: forcePrecert || e.r.Intn(3) == 0, serial: e.serial}
+		s.viaInt = e.r.Bool()
+		leaf := e.pki.Issue(e.serial, s.precert, s.viaInt)
+		e.finishChain(s, leaf)
 	} else {
-		s = &v6Sub{precert: again.precert, idHash: again.idHash, stored: again.stored}
+		s = &v6Sub{precert: again.precert, idHash: again.idHash, stored: again.stored, viaInt: again.viaInt, serial: again.serial}
 		s.chainDER = append([][]byte(nil), again.chainDER...)
 		// the same certificate with or without the root appended
 		if bytes.Equal(s.chainDER[len(s.chainDER)-1], e.pki.RootDER) {
@@ -197,30 +187,35 @@ func (e *v6Env) submit(again *v6Sub) {
 		} else if e.r.Bool() {
 			s.chainDER = append(s.chainDER, e.pki.RootDER)
 		}
-	}
-	class := "add-chain"
-	if s.precert {
-		class = "add-pre-chain"
-	}
-	if again != nil {
-		class += "-duplicate"
-	}
-	key := e.key(class)
-	nowMillis := uint64(e.clock.Now().UnixNano() / 1_000_000)
-	before := int(e.backend.Size()) + e.backend.Pending()
-	var sct *ct.SignedCertificateTimestamp
-	var err error
-	if p := verifkit.Guard(func() {
-		if s.precert {
-			sct, err = e.lc.AddPreChain(ctx, v6ASN1(s.chainDER))
-		} else {
-			sct, err = e.lc.AddChain(ctx, v6ASN1(s.chainDER))
+		// ... or through the other certificate of the same intermediate CA: another valid path for the same leaf.
+		// The entry keeps the chain of the first submission (`stored` stays `again.stored`).
+		if again.viaInt && e.r.Intn(3) == 0 {
+			s.chainDER[1] = e.pki.Int2DER
+			s.otherPath = true
 		}
-	}); p != "" {
-		e.out.Fail(key, "panic: "+p)
-		return
 	}
-	// what the front end is expected to queue: leaf for the validated path at the current millisecond
+	return s
+}
+
+func (e *v6Env) finishChain(s *v6Sub, leaf []byte) {
+	s.chainDER = [][]byte{leaf}
+	s.stored = nil
+	if s.viaInt {
+		s.chainDER = append(s.chainDER, e.pki.IntDER)
+		s.stored = append(s.stored, e.pki.IntDER)
+	}
+	s.stored = append(s.stored, e.pki.RootDER)
+	// the root may be omitted (RFC 6962 s4.1) — except that client.LogClient needs the issuer of a
+	// precertificate in the submitted chain to verify the SCT it gets back
+	if e.r.Bool() || (s.precert && !s.viaInt) {
+		s.chainDER = append(s.chainDER, e.pki.RootDER)
+	}
+	s.idHash = sha256.Sum256(leaf)
+}
+
+// subOp is the model line of a submission at the given millisecond: the model builds the MerkleTreeLeaf bytes itself from
+// the RFC 6962 layout (certificate / issuer key hash + TBS and the millisecond).
+func (e *v6Env) subOp(s *v6Sub, key string, nowMillis uint64) string {
 	etype := ct.X509LogEntryType
 	if s.precert {
 		etype = ct.PrecertLogEntryType
@@ -230,33 +225,78 @@ func (e *v6Env) submit(again *v6Sub) {
 	if lerr != nil {
 		e.t.Fatal(lerr)
 	}
-	candValue, _ := tls.Marshal(*candLeaf)
 	s.wantExtra, _ = util.ExtraDataForChain(ct.ASN1Cert{Data: s.chainDER[0]}, v6ASN1(s.stored), s.precert)
-	// The model builds the MerkleTreeLeaf bytes itself from the RFC 6962 layout (certificate / issuer key hash + TBS and
-	// the clock's millisecond); `candValue` (the repo's own serializer) is only used to cross-check the harness.
-	var op string
 	if s.precert {
 		pe := candLeaf.TimestampedEntry.PrecertEntry
-		op = fmt.Sprintf("subp %s %d %s %s %s", verifkit.Hex(s.idHash[:]), nowMillis, verifkit.Hex(pe.IssuerKeyHash[:]), verifkit.Hex(pe.TBSCertificate), verifkit.Hex(s.wantExtra))
 		ikh := sha256.Sum256(path[1].RawSubjectPublicKeyInfo)
 		if ikh != pe.IssuerKeyHash {
 			e.out.Fail(key, "issuer key hash of the precert leaf is not SHA-256 of the issuer's SubjectPublicKeyInfo")
 		}
-	} else {
-		op = fmt.Sprintf("subx %s %d %s %s", verifkit.Hex(s.idHash[:]), nowMillis, verifkit.Hex(s.chainDER[0]), verifkit.Hex(s.wantExtra))
+		return fmt.Sprintf("subp %s %d %s %s %s", verifkit.Hex(s.idHash[:]), nowMillis, verifkit.Hex(pe.IssuerKeyHash[:]), verifkit.Hex(pe.TBSCertificate), verifkit.Hex(s.wantExtra))
 	}
-	_ = candValue
+	return fmt.Sprintf("subx %s %d %s %s", verifkit.Hex(s.idHash[:]), nowMillis, verifkit.Hex(s.chainDER[0]), verifkit.Hex(s.wantExtra))
+}
+
+func (e *v6Env) clientChain(s *v6Sub) []*x509.Certificate {
+	cc := v6Parse(s.chainDER)
+	if s.precert && len(cc) < 2 {
+		cc = v6Parse(append([][]byte{s.chainDER[0]}, s.stored...)) // a client needs the issuer for a precert
+	}
+	return cc
+}
+
+func (e *v6Env) send(s *v6Sub) (sct *ct.SignedCertificateTimestamp, err error, pn string) {
+	pn = verifkit.Guard(func() {
+		if s.precert {
+			sct, err = e.lc.AddPreChain(context.Background(), v6ASN1(s.chainDER))
+		} else {
+			sct, err = e.lc.AddChain(context.Background(), v6ASN1(s.chainDER))
+		}
+	})
+	return
+}
+
+// submit sends a chain (fresh or a resubmission of sub `again`) through add-chain / add-pre-chain.
+func (e *v6Env) submit(again *v6Sub) { e.submitPrepared(e.prepare(again, false), again, true, "") }
+
+func (e *v6Env) submitPrepared(s *v6Sub, again *v6Sub, advance bool, tag string) {
+	if advance {
+		e.clock.Advance(time.Duration(1+e.r.I64n(5_000_000)) * time.Microsecond) // sub-millisecond parts matter
+	}
+	class := "add-chain"
+	if s.precert {
+		class = "add-pre-chain"
+	}
+	if again != nil {
+		class += "-duplicate"
+		if s.otherPath {
+			class += "-other-path"
+		}
+	}
+	if tag != "" {
+		class += "-" + tag
+	}
+	key := e.key(class)
+	nowMillis := uint64(e.clock.Now().UnixNano() / 1_000_000)
+	before := int(e.backend.Size()) + e.backend.Pending()
+	sct, err, pn := e.send(s)
+	if pn != "" {
+		e.out.Fail(key, "panic: "+pn)
+		return
+	}
+	op := e.subOp(s, key, nowMillis)
 	if err != nil {
 		e.out.T(op, "err")
 		e.out.Fail(key, "a valid chain was refused: "+err.Error())
 		return
 	}
+	// the identity hash the front end sent to the backend is SHA-256 of the submitted leaf certificate
+	if got := e.backend.LastQueuedIdentity(); !bytes.Equal(got, s.idHash[:]) {
+		e.out.Fail(key, fmt.Sprintf("LeafIdentityHash sent to the backend is %x, SHA-256 of the leaf certificate is %x", got, s.idHash[:]))
+	}
 	s.sct = sct
 	// the leaf hash a client computes from the certificate and the SCT alone
-	clientChain := v6Parse(s.chainDER)
-	if s.precert && len(clientChain) < 2 {
-		clientChain = v6Parse(append([][]byte{s.chainDER[0]}, s.stored...)) // a client needs the issuer for a precert
-	}
+	clientChain := e.clientChain(s)
 	lh, herr := ctutil.LeafHash(clientChain, sct, false)
 	if herr != nil {
 		e.out.Fail(key, "client cannot compute the leaf hash: "+herr.Error())
@@ -291,6 +331,101 @@ func (e *v6Env) submit(again *v6Sub) {
 	if again == nil {
 		e.subs = append(e.subs, s)
 	}
+}
+
+// sameMillisecond: submissions without moving the clock — two different X.509 certificates, and a precertificate followed by
+// its twin: the same TBSCertificate signed again (ECDSA signatures are randomised), i.e. another identity hash but the same
+// MerkleTreeLeaf bytes. The ordinary oracle then applies to all of them (found at the stored index, entry decodes to the
+// submitted certificate).
+func (e *v6Env) sameMillisecond() {
+	e.submitPrepared(e.prepare(nil, false), nil, true, "")
+	e.submitPrepared(e.prepare(nil, false), nil, false, "same-ms")
+	p1 := e.prepare(nil, true)
+	e.submitPrepared(p1, nil, true, "")
+	twinDER := e.pki.Issue(p1.serial, true, p1.viaInt)
+	c1, c2 := v6Parse([][]byte{p1.chainDER[0]})[0], v6Parse([][]byte{twinDER})[0]
+	if !bytes.Equal(c1.RawTBSCertificate, c2.RawTBSCertificate) || bytes.Equal(p1.chainDER[0], twinDER) {
+		e.out.Count("mode:twin-precert-not-built")
+		return
+	}
+	p2 := &v6Sub{precert: true, viaInt: p1.viaInt, serial: p1.serial, twin: true}
+	e.finishChain(p2, twinDER)
+	e.submitPrepared(p2, nil, false, "same-tbs-precert")
+}
+
+// concurrentSubmit: k add-chain calls at once at one clock instant, among them the same chain twice.
+// The backend's queue order decides the order of the model lines.
+func (e *v6Env) concurrentSubmit(k int) {
+	e.clock.Advance(time.Duration(1+e.r.I64n(5_000_000)) * time.Microsecond)
+	nowMillis := uint64(e.clock.Now().UnixNano() / 1_000_000)
+	key := e.key(fmt.Sprintf("concurrent-add k=%d", k))
+	var subs []*v6Sub
+	for i := 0; i < k-1; i++ {
+		subs = append(subs, e.prepare(nil, false))
+	}
+	twice := *subs[0]
+	subs = append(subs, &twice) // the same chain a second time
+	beforePending := len(e.backend.PendingIdentities())
+	type res struct {
+		sct *ct.SignedCertificateTimestamp
+		err error
+		pn  string
+	}
+	rs := make([]res, len(subs))
+	var wg sync.WaitGroup
+	for i := range subs {
+		wg.Add(1)
+		go func(i int) {
+			defer wg.Done()
+			rs[i].sct, rs[i].err, rs[i].pn = e.send(subs[i])
+		}(i)
+	}
+	wg.Wait()
+	byID := map[[32]byte]*v6Sub{}
+	for i, s := range subs {
+		if rs[i].pn != "" || rs[i].err != nil {
+			e.out.Fail(key, fmt.Sprintf("concurrent submission %d failed: %v %s", i, rs[i].err, rs[i].pn))
+			continue
+		}
+		s.sct = rs[i].sct
+		lh, herr := ctutil.LeafHash(e.clientChain(s), s.sct, false)
+		if herr != nil {
+			e.out.Fail(key, "client cannot compute the leaf hash: "+herr.Error())
+			continue
+		}
+		s.leafHash = lh
+		if s.sct.Timestamp != nowMillis {
+			e.out.Fail(key, fmt.Sprintf("SCT timestamp %d, clock says %d ms", s.sct.Timestamp, nowMillis))
+		}
+		if verr := ctutil.VerifySCT(e.linfo.Verifier.PubKey, e.clientChain(s), s.sct, false); verr != nil {
+			e.out.Fail(key, "SCT does not verify: "+verr.Error())
+		}
+		if first, ok := byID[s.idHash]; ok {
+			if first.sct.Timestamp != s.sct.Timestamp || first.leafHash != s.leafHash {
+				e.out.Fail(key, "the same chain submitted twice concurrently got SCTs for different leaves")
+			}
+		} else {
+			byID[s.idHash] = s
+		}
+	}
+	added := e.backend.PendingIdentities()[beforePending:]
+	if len(added) != len(byID) {
+		e.out.Fail(key, fmt.Sprintf("%d distinct certificates submitted concurrently, %d leaves queued", len(byID), len(added)))
+	}
+	// model lines in the backend's queue order, then the duplicate
+	for _, id := range added {
+		var k32 [32]byte
+		copy(k32[:], id)
+		if s := byID[k32]; s != nil {
+			e.out.T(e.subOp(s, key, nowMillis), fmt.Sprintf("sct %x new", s.leafHash[:]))
+			e.subs = append(e.subs, s)
+		}
+	}
+	if s := subs[len(subs)-1]; s.sct != nil {
+		e.out.T(e.subOp(s, key, nowMillis), fmt.Sprintf("sct %x dup", s.leafHash[:]))
+	}
+	e.out.Count("class:concurrent-add-batch")
+	e.out.Add("class:concurrent-add", int64(len(subs)))
 }
 
 func (e *v6Env) sequence() {
@@ -376,6 +511,9 @@ func vHexList6(hs [][]byte) string {
 func (e *v6Env) inclusion(s *v6Sub, h v6STH) {
 	ctx := context.Background()
 	key := e.key(fmt.Sprintf("get-proof-by-hash size=%d", h.size))
+	if s.twin {
+		key = e.key(fmt.Sprintf("same-tbs-precert get-proof-by-hash size=%d", h.size))
+	}
 	idx := e.backend.IndexOfIdentity(s.idHash[:])
 	op := fmt.Sprintf("pbh %x %d", s.leafHash[:], h.size)
 	rsp, err := e.lc.GetProofByHash(ctx, s.leafHash[:], h.size)
@@ -527,6 +665,10 @@ func (e *v6Env) step() {
 		} else {
 			e.submit(nil)
 		}
+	case x < 46:
+		e.sameMillisecond()
+	case x < 48:
+		e.concurrentSubmit(3 + e.r.Intn(6))
 	case x < 58:
 		e.sequence()
 	case x < 70:
